@@ -14,7 +14,7 @@ import (
 func init() { Registry["C19"] = checkC19 }
 
 func checkC19(p *core.Prog, r *core.Report) {
-	r.Explanation = "Decides the wire conventions through which the packaged client primitives obtain their guarantees, as structural necessary conditions: (R1) every client.Lock built by a primitive carries the count / re-entrancy / flag values its guarantee rests on (exclusive 0/0, RLock rcount 0xff, readers 0xffff and writer 0, Semaphore / MaxConcurrentFlow the normalised n-1, PriorityLock priority + RCOUNT_IS_PRIORITY, Event mode counts and the wait-when-unlocked flag) - value origin over SSA with helper constructors inlined; (R2) the constructors and setters normalise n to n-1 exactly when n > 0 (0xffff / 0xff kept); (R3) every Lock method hands its own id, timeout, expiry, count and rcount to doLock/doUnlock in the matching argument position and doLock/doUnlock/Send* copy them to the matching fields of the LOCK / UNLOCK frame (same-typed swaps compile); (R4) the facades forward same-named quantities (timeout to timeout, expried to expried, count to count) down to the constructors; (R5) the client registers a request under its RequestId before the frame is written, removes it on every failing exit, and a reply is delivered once to the waiter found under the reply's own RequestId; (R6) the per-connection scratch buffers (server reply buffer, client request buffer) are written and handed to the stream only while the connection's mutex is held. NOT decided: the admission behaviour itself under concurrency (C01/C02/C04 decide the server-side structure), pipelining order, reconnects, timing."
+	r.Explanation = "Decides the wire conventions through which the packaged client primitives obtain their guarantees, as structural necessary conditions: (R1) every client.Lock built by a primitive carries the count / re-entrancy / flag values its guarantee rests on (exclusive 0/0, RLock rcount 0xff, readers 0xffff and writer 0, Semaphore / MaxConcurrentFlow the normalised n-1, PriorityLock priority + RCOUNT_IS_PRIORITY, Event mode counts and the wait-when-unlocked flag) - value origin over SSA with helper constructors inlined; (R2) the constructors and setters normalise n to n-1 exactly when n > 0 (0xffff / 0xff kept); (R3) every Lock method hands its own id, timeout, expiry, count and rcount to doLock/doUnlock in the matching argument position and doLock/doUnlock/Send* copy them to the matching fields of the LOCK / UNLOCK frame (same-typed swaps compile); (R4) the facades forward same-named quantities (timeout to timeout, expried to expried, count to count) down to the constructors; (R5) the client registers a request under its RequestId before the frame is written, removes it on every failing exit, and a reply is delivered once to the waiter found under the reply's own RequestId; (R6) the per-connection scratch buffers (server reply buffer, client request buffer) are written and handed to the stream only while the connection's mutex is held. (R7) the acquire methods report success only for result 0; (R8) the client reader decodes every reply into a fresh object. NOT decided: the admission behaviour itself under concurrency (C01/C02/C04 decide the server-side structure), pipelining order, reconnects, timing."
 	r.Assumptions = []string{"Go type checker and go/ssa are correct for /repo"}
 	c19R1(p, r)
 	c19R2(p, r)
@@ -22,6 +22,8 @@ func checkC19(p *core.Prog, r *core.Report) {
 	c19R4(p, r)
 	c19R5(p, r)
 	c19R6(p, r)
+	c19R7(p, r)
+	c19R8(p, r)
 }
 
 // ---- R1: convention table -------------------------------------------------
@@ -876,5 +878,141 @@ func c19R6(p *core.Prog, r *core.Report) {
 				r.Fail("C19/R6 %s: %s", name, ex.Imprecise)
 			}
 		}
+	}
+}
+
+// c19R7: the acquire methods of client.Lock report success (nil error) only
+// for result code 0. The primitives that share one Lock object between
+// goroutines (RWLock's writer lock, MaxConcurrentFlow's flow lock) rely on the
+// server's LOCKED_ERROR for the second acquirer of the same LockId; treating
+// any non-zero result as success admits two holders.
+func c19R7(p *core.Prog, r *core.Report) {
+	const rule = "C19/R7"
+	r.Rule(rule, "client.Lock acquire methods return a nil error only on a path that tested Result == 0", 3)
+	for _, m := range []string{"Lock", "LockWithFlag", "LockWithData", "LockWithDataAndFlag"} {
+		name := "client.(*Lock)." + m
+		fn := p.Func(name)
+		if fn == nil || fn.Blocks == nil {
+			continue
+		}
+		ex := core.NewExplorer(p, core.Hooks{
+			Track: func(x *core.X, a core.Atom) bool { return strings.HasSuffix(core.Plain(a.L), ".Result") },
+			Exit: func(x *core.X, rets []core.Expr) {
+				if len(rets) != 2 || rets[1].S != "nil" {
+					return
+				}
+				ok := false
+				for h := range x.St.Hist {
+					if strings.HasSuffix(h, ".Result == 0") {
+						ok = true
+					}
+				}
+				key := name + ": success return"
+				if ok {
+					r.Hold(rule, key, x.Pos(), "only for result 0")
+				} else {
+					r.Violate(rule, key, x.Pos(), "success is reported on a path that did not establish Result == 0: a refusal (e.g. LOCKED_ERROR for a LockId already held through the same shared object) lets a second goroutine into the critical section", x.St.Trace)
+				}
+			},
+		})
+		ex.Run(fn, nil)
+	}
+}
+
+// c19R8: the client's reader goroutine hands each decoded reply to the waiting
+// caller through a channel and goes on reading; it does not wait for the caller
+// to consume it. So every reply must be decoded into its own object - a reused
+// buffer (ring, field) is overwritten by later replies before the woken caller
+// looks at it, and the caller sees another request's result.
+func c19R8(p *core.Prog, r *core.Report) {
+	const rule = "C19/R8"
+	r.Rule(rule, "BinaryClientProtocol.Read decodes every reply into an object allocated in that call (no reuse across replies)", 6)
+	fn := mustFunc(p, r, "client.(*BinaryClientProtocol).Read")
+	if fn == nil {
+		return
+	}
+	n := 0
+	var origin func(v ssa.Value, depth int) string
+	origin = func(v ssa.Value, depth int) string {
+		if depth > 8 {
+			return "?"
+		}
+		switch t := v.(type) {
+		case *ssa.Alloc:
+			return "new"
+		case *ssa.MakeInterface:
+			return origin(t.X, depth+1)
+		case *ssa.ChangeInterface:
+			return origin(t.X, depth+1)
+		case *ssa.Const:
+			return "nil"
+		case *ssa.Phi:
+			out := "new"
+			for _, e := range t.Edges {
+				if o := origin(e, depth+1); o != "new" && o != "nil" {
+					out = o
+				}
+			}
+			return out
+		case *ssa.Call:
+			if c := t.Common().StaticCallee(); c != nil && core.InModule(c) && c.Blocks != nil {
+				// a helper: every returned value must itself be fresh
+				out := "new"
+				for _, b := range c.Blocks {
+					for _, ins := range b.Instrs {
+						if ret, ok := ins.(*ssa.Return); ok && len(ret.Results) > 0 {
+							if o := origin(ret.Results[0], depth+1); o != "new" && o != "nil" {
+								out = o
+							}
+						}
+					}
+				}
+				return out
+			}
+			return "call " + t.Common().String()
+		case *ssa.Extract:
+			return origin(t.Tuple, depth+1)
+		case *ssa.UnOp:
+			// a result spilled to a local cell (function with defer): what was stored into it
+			if al, ok := t.X.(*ssa.Alloc); ok && !al.Heap || ok && al.Comment != "" {
+				out := "new"
+				if refs := al.Referrers(); refs != nil {
+					for _, ref := range *refs {
+						if st, ok := ref.(*ssa.Store); ok && st.Addr == ssa.Value(al) {
+							if o := origin(st.Val, depth+1); o != "new" && o != "nil" {
+								out = o
+							}
+						}
+					}
+				}
+				return out
+			}
+			return "load " + t.X.String()
+		case *ssa.IndexAddr, *ssa.FieldAddr:
+			return "address into shared storage"
+		}
+		return v.String()
+	}
+	for _, b := range fn.Blocks {
+		for _, ins := range b.Instrs {
+			ret, ok := ins.(*ssa.Return)
+			if !ok || len(ret.Results) != 2 {
+				continue
+			}
+			if c, ok := ret.Results[0].(*ssa.Const); ok && c.Value == nil {
+				continue
+			}
+			n++
+			o := origin(ret.Results[0], 0)
+			key := fmt.Sprintf("client.(*BinaryClientProtocol).Read: return#%d", n)
+			if o == "new" || o == "nil" {
+				r.Hold(rule, key, p.InstrPos(ins), "reply object allocated in this call")
+			} else {
+				r.Violate(rule, key, p.InstrPos(ins), "the reply handed to the waiting caller is not a fresh object ("+o+"): the reader goes on decoding later replies into it before the woken caller reads its result, so a caller sees another request's reply", nil)
+			}
+		}
+	}
+	if n == 0 {
+		r.Fail("C19/R8: no reply return found in Read")
 	}
 }
